@@ -23,6 +23,13 @@ pub fn decode_pg(t: &mut Tape, cfg: &GenCfg, gcfg: &GoalCfg, ngoals: usize) -> P
         let goals = (0..ngoals).map(|_| gen_conj_goal(t, &program)).collect();
         return PG { program, goals };
     }
+    // shape knob: several answers over a two-parameter constructor (answers that agree in one argument and differ in
+    // the other are what the aggregation of answers has to get right)
+    if gcfg.exists && t.chance(15) {
+        let program = gen_pair_program(t);
+        let goals = (0..ngoals).map(|_| gen_pair_goal(t, &program)).collect();
+        return PG { program, goals };
+    }
     let program = gen_program(t, cfg);
     let goals = (0..ngoals).map(|_| gen_goal(t, &program, gcfg)).collect();
     PG { program, goals }
